@@ -62,6 +62,42 @@ def run_case(c):
                 return {"ok": False, "evaluations": n, "outcome": real, "expected": sp,
                         "case": {"prop": "C04", "kind": "sign", "inputs": {"p": {"t": "str", "v": p}}}}
         return {"ok": True, "evaluations": n}
+    if kind == "bitflips":
+        # every single-bit flip of real frames (the unsigned part of each kind of frame the library sends), both hex spellings
+        ts, ident, sess, key = bytes.fromhex("d2029649"), bytes.fromhex("a1b2c3"), bytes.fromhex("11223344"), b"\x07"
+        frames = [spec.login1_frame(ts, key), spec.login2_frame(ts, ident), spec.get_state1_frame(sess, ts, ident),
+                  spec.get_state2_frame(sess, ts, ident), spec.control_frame(sess, ts, ident, True, 30),
+                  spec.auto_shutdown_frame(sess, ts, ident, 7200), spec.name_frame(sess, ts, ident, "my boiler"),
+                  spec.get_schedules_frame(sess, ts, ident), spec.delete_schedule_frame(sess, ts, ident, 3),
+                  spec.create_schedule_frame(sess, ts, ident, 42, 1700000000, 1700003600), spec.stop_frame(sess, ts, ident),
+                  spec.set_position_frame(sess, ts, ident, 50), spec.breeze_update_frame(sess, ts, ident, 1, 4, 24, 2, 0),
+                  spec.breeze_command_frame(sess, ts, ident, b"\x00\x00\x00\x00P|" + b"AB" * 150)]
+        n = 0
+        for f in frames:
+            body = bytes(f[:-4])
+            for bit in range(-1, 8 * len(body)):
+                b = bytearray(body)
+                if bit >= 0:
+                    b[bit // 8] ^= 1 << (bit % 8)
+                for p_ in ((b.hex(),) if bit % 16 else (b.hex(), b.hex().upper())):
+                    ok, real, sp = check_one(p_)
+                    n += 1
+                    if not ok:
+                        return {"ok": False, "evaluations": n, "outcome": real, "expected": sp,
+                                "case": {"prop": "C04", "kind": "sign", "inputs": {"p": {"t": "str", "v": p_}}}}
+        return {"ok": True, "evaluations": n}
+    if kind == "wrapped":
+        # a hex text wrapped in white space is not a hex-encoded byte string: it is refused like any other non-hex text
+        n = 0
+        for ws in (" ", "\n", "\t", "\r\n", "\x0b", "\x0c", "\xa0", "\u2003", "  "):
+            for core in ("", "aabb", "fef0", "00" * 40, "AB" * 5):
+                for p_ in (ws + core, core + ws, ws + core + ws, ws + core + ws + ws):
+                    ok, real, sp = check_one(p_)
+                    n += 1
+                    if not ok:
+                        return {"ok": False, "evaluations": n, "outcome": real, "expected": sp,
+                                "case": {"prop": "C04", "kind": "sign", "inputs": {"p": {"t": "str", "v": p_}}}}
+        return {"ok": True, "evaluations": n}
     if kind == "short_exhaustive":
         n = 0
         alphabet = [bytes([b]) for b in range(256)]
